@@ -1,13 +1,13 @@
 """C14 -- nucleation quantities obey classical nucleation theory for every site type (partial claim, DESIGN 3/C14)."""
 from ..core import main
-from ..tlc import run_tlc, MachineryError
+from ..tlc import run_tlc, run_apalache, MachineryError
 from ..kwn_checks import judge, canary
 from .. import traces as T
 
 
 def run(ctx, replay=None):
     from .. import c14_drv as D
-    ctx.rule = ("(k) NucParams.tla: TLC explores every history of <= 5 setter/read operations on the cached geometric factors (ReadIsCurrent, CacheNeverStale); "
+    ctx.rule = ("(k) NucParams.tla: TLC explores every history of <= 5 setter/read operations on the cached geometric factors (ReadIsCurrent, CacheNeverStale); Apalache shows the same invariant inductive for histories of any length (APA_NucParams.tla, with a negative control); "
                 "all read-set-read triples and seeded histories of 3-7 operations are executed on NucleationBarrierParameters (directly and through "
                 "PrecipitateParameters.gamma/validate) and each read is compared with a freshly built object. (c,a) model level: every step of the precipitation "
                 "suite must record rate = 0 when the driving force is <= 0 (KWN_Trace.tla); function level: sign/zero/finite classes of barrier, Zeldovich, "
@@ -19,6 +19,15 @@ def run(ctx, replay=None):
     ctx.add_tlc(res, "NucParams.tla histories <= 5")
     if res.violated:
         ctx.tlc_violation(res, "NucParams")
+    # unbounded histories: the cache invariant is inductive (Apalache), and is NOT with a setter that forgets to invalidate
+    a0 = run_apalache("APA_NucParams", cinit="CInit", init="Init", inv="IndInv", length=0, tag="nuc0")
+    a1 = run_apalache("APA_NucParams", cinit="CInit", init="IndInit", inv="IndInv", length=1, tag="nuc1")
+    a2 = run_apalache("APA_NucParams", cinit="CInit", init="IndInit", next_="NextBroken", inv="IndInv", length=1, tag="nuc2")
+    ctx.extra["apalache"] = {"Init=>IndInv": a0, "IndInv/\\Next=>IndInv'": a1, "negative control (setter without invalidation)": a2}
+    if a2 != "error":
+        raise MachineryError("Apalache negative control accepted a setter that does not invalidate the cache")
+    if a0 != "ok" or a1 != "ok":
+        ctx.violation("nucparams:inductive-invariant", "cache invariant of NucParams is not inductive (%s, %s)" % (a0, a1), {"apalache": [a0, a1]})
     def corrupt(ev):
         for e in ev:
             if e["e"] == "step":
@@ -26,6 +35,7 @@ def run(ctx, replay=None):
                 return
     canary(ctx, corrupt, "C14:rate=0-when-dG<=0")
     judge(ctx, ["C14:"])
+    sites_part(ctx, D)
     hist = D.gen_factor_histories(ctx.rng, ctx.tier)
     traces = [D.factor_history(h, "direct" if i % 2 == 0 else "precipitate") for i, h in enumerate(hist)]
     labels = ["factors:%s" % [o[0] if o[0] != "read" else o[1] for o in h] for h in hist]
@@ -43,6 +53,45 @@ def run(ctx, replay=None):
             ctx.violation("c14:trace-not-consumed", "%s not consumed" % lab, {"trace": lab})
         for f in v["fails"]:
             ctx.violation("c14:%s:%s" % (f[0], f[1].split(",")[0]), "%s: %s violated at %s (observed %s, stated %s)" % (lab[:80], f[0], f[1], f[2], f[3]), {"trace": lab, "fail": f})
+
+
+def sites_part(ctx, D):
+    """(j) pools per kind of site: Sites.tla model-checked, then every snapshot of the real _calcNucleationSites judged by Sites_Trace.tla"""
+    import copy
+    deep = ctx.tier != "quick"
+    cfg = T.write_cfg("sites_mc", ["SPECIFICATION Spec", "CONSTANTS", "  Phases = {1, 2%s}" % (", 3" if deep else ""),
+                                   '  Kinds = {"bulk", "dislocations", "grain corners"%s}' % (', "grain boundaries"' if deep else ""),
+                                   "  Pools = {0, 3}", "  Steps = {0, 2}", "  MaxOps = %d" % (2 if not deep else 2),
+                                   "INVARIANT NeverNegative", "INVARIANT OccupationDecreases", "INVARIANT OtherKindsUntouched",
+                                   "INVARIANT SharedPool", "INVARIANT Exhausted"])
+    res = run_tlc("Sites", cfg, deadlock=False, timeout=1500)
+    ctx.add_tlc(res, "Sites.tla: all histories of <= 2 occupy/dissolve/re-site operations")
+    if res.violated:
+        ctx.tlc_violation(res, "Sites")
+    for vac in ("VacSomeExhausted", "VacChildGains"):
+        cfgv = T.write_cfg("sites_vac", ["SPECIFICATION Spec", "CONSTANTS", "  Phases = {1, 2}", '  Kinds = {"bulk", "dislocations"}',
+                                         "  Pools = {0, 3}", "  Steps = {0, 2}", "  MaxOps = 2", "INVARIANT " + vac])
+        rv = run_tlc("Sites", cfgv, deadlock=False, timeout=600)
+        if not rv.violated:
+            raise MachineryError("vacuity: Sites.tla never reaches the situation %s describes" % vac)
+    labels, traces = D.site_snapshots(ctx.tier)
+    can = copy.deepcopy(traces[0])
+    can[3]["obs"][1] += 40
+    reached, r = T.validate("Sites_Trace", [], traces + [can], "c14_sites")
+    ctx.add_tlc(r, "Sites_Trace over %d snapshot sequences" % len(traces))
+    if r.violated or reached is None:
+        raise MachineryError("Sites_Trace validation failed")
+    if not reached[-1]["fails"]:
+        raise MachineryError("binding self-test failed: corrupted site snapshot accepted")
+    for lab, ev, v in zip(labels, traces, reached):
+        n = sum(1 for e in ev if e["e"] == "sites")
+        ctx.replayed += n
+        exhausted = any(e["e"] == "sites" and min(e["obs"]) == 0 for e in ev)
+        ctx.case(lab, nontrivial=exhausted, sample={"trace": lab, "events": ev[2:4]} if len(ctx.samples) < 6 else None)
+        if v["l"] != len(ev) + 1:
+            ctx.violation("c14:trace-not-consumed", "%s not consumed" % lab, {"trace": lab})
+        for f in v["fails"]:
+            ctx.violation("c14:%s:%s" % (f[0], lab.split(" ")[0]), "%s: %s violated first at %s" % (lab, f[0], f[1]), {"trace": lab, "fail": f, "events": ev})
 
 
 if __name__ == "__main__":
